@@ -56,7 +56,7 @@ type local struct {
 	epoch  uint32
 	seed   string
 	seedB  []byte
-	tag    string // cfg + fix flag, prefix of non-trivial keys
+	tag    string              // cfg + fix flag, prefix of non-trivial keys
 	ntSet  map[uint32]struct{} // (honoured, refused) pairs seen in this task
 	outSet map[uint64]struct{} // packed outcome sizes seen in this task
 }
@@ -70,7 +70,7 @@ func newLocal(prop string, taskNo int64) *local {
 // shuffler builds the real shuffler. The two feature flags are driven the way production
 // drives them: through Epoch relative to the two enable epochs.
 func (l *local) shuffler(cf *cfg, kn *knobs) (sharding.NodesShuffler, uint32) {
-	k := shKey{cf.minS, cf.minM, kn.cap, kn.cross, kn.fix, kn.bal}
+	k := shKey{cf.minS, cf.minM, int(kn.cap), kn.cross, kn.fix, kn.bal}
 	if e, ok := l.shs[k]; ok {
 		return e.sh, e.epoch
 	}
@@ -132,7 +132,7 @@ func (l *local) runSpec(cs *caseSpec) error {
 			return fmt.Errorf("list too long")
 		}
 	}
-	kn := knobs{cap: cs.NodesToShufflePerShard, nNew: cs.NewNodes, fix: cs.WaitingListFix, bal: cs.BalanceWaitingLists, cross: cs.ShuffleBetweenShards}
+	kn := knobs{cap: int8(cs.NodesToShufflePerShard), nNew: int8(cs.NewNodes), fix: cs.WaitingListFix, bal: cs.BalanceWaitingLists, cross: cs.ShuffleBetweenShards}
 	toIDs := func(ns []string) ([]uint8, error) {
 		var out []uint8
 		for _, n := range ns {
@@ -159,8 +159,8 @@ func (l *local) runSpec(cs *caseSpec) error {
 }
 
 func (l *local) spec(u, a []uint8) *caseSpec {
-	cs := &caseSpec{NbShards: l.cf.nb, NodesShard: l.cf.minS, NodesMeta: l.cf.minM, NodesToShufflePerShard: l.kn.cap,
-		NewNodes: l.kn.nNew, WaitingListFix: l.kn.fix, BalanceWaitingLists: l.kn.bal, ShuffleBetweenShards: l.kn.cross,
+	cs := &caseSpec{NbShards: l.cf.nb, NodesShard: l.cf.minS, NodesMeta: l.cf.minM, NodesToShufflePerShard: int(l.kn.cap),
+		NewNodes: int(l.kn.nNew), WaitingListFix: l.kn.fix, BalanceWaitingLists: l.kn.bal, ShuffleBetweenShards: l.kn.cross,
 		EmptyListsAbsent: l.cf.missing, Rand: l.seed, UnStakeLeaving: []string{}, AdditionalLeaving: []string{}}
 	for _, ch := range l.cf.chains() {
 		cs.Eligible = append(cs.Eligible, l.cf.e[ch])
@@ -204,7 +204,7 @@ func renderMap(m map[uint32][]sharding.Validator) map[string][]string {
 }
 
 func (l *local) violation(sig string, u, a []uint8, args *sharding.ArgsUpdateNodes, res *sharding.ResUpdateNodes, extra map[string]interface{}) {
-	cost := l.cf.total() + l.kn.nNew + len(u) + len(a) + l.cf.nb
+	cost := l.cf.total() + int(l.kn.nNew) + len(u) + len(a) + l.cf.nb
 	if l.cf.missing {
 		cost++
 	}
@@ -298,7 +298,7 @@ func (l *local) eval(u, a []uint8) {
 			inW[idOf(ch, 1, i)] = true
 		}
 	}
-	for i := 0; i < kn.nNew; i++ {
+	for i := 0; i < int(kn.nNew); i++ {
 		isNew[idNew+i] = true
 	}
 	for _, id := range u {
